@@ -3,6 +3,7 @@ package main
 import (
 	"flag"
 	"fmt"
+	"go/types"
 	"os"
 	"path/filepath"
 	"sort"
@@ -107,6 +108,58 @@ func main() {
 		r := verifyFunction(P, SS, G, fn, con)
 		results = append(results, r)
 		obls = append(obls, r.Obls...)
+	}
+	// interface-method contracts: every implementing method must satisfy them
+	for _, iname := range SS.IfaceOrder {
+		con := SS.Ifaces[iname]
+		if !serves(con, *prop) {
+			continue
+		}
+		parts := strings.Split(iname, ".") // pkg.Iface.Method
+		sp := P.SPkgs[parts[0]]
+		if sp == nil || len(parts) != 3 {
+			results = append(results, &FuncResult{Name: iname, Con: con, Unsupported: "stale contract: no such interface"})
+			continue
+		}
+		tn, _ := sp.Pkg.Scope().Lookup(parts[1]).(*types.TypeName)
+		if tn == nil {
+			results = append(results, &FuncResult{Name: iname, Con: con, Unsupported: "stale contract: no such interface"})
+			continue
+		}
+		named, ok := P.closedInterface(tn.Type())
+		if !ok {
+			results = append(results, &FuncResult{Name: iname, Con: con, Unsupported: "stale contract: not an interface of the module"})
+			continue
+		}
+		for _, T := range P.implementors(named) {
+			m := P.Prog.LookupMethod(T, sp.Pkg, parts[2])
+			if m == nil && T != nil {
+				// unexported method of another package
+				for _, q := range P.SPkgs {
+					if mm := P.Prog.LookupMethod(T, q.Pkg, parts[2]); mm != nil {
+						m = mm
+						break
+					}
+				}
+			}
+			if m != nil && m.Synthetic != "" {
+				if pt, ok := T.(*types.Pointer); ok {
+					if mm := P.Prog.LookupMethod(pt.Elem(), sp.Pkg, parts[2]); mm != nil && mm.Synthetic == "" {
+						m = mm
+					}
+				}
+			}
+			if m == nil || len(m.Blocks) == 0 {
+				results = append(results, &FuncResult{Name: iname + "@" + T.String(), Con: con, Unsupported: "implementing method not found"})
+				continue
+			}
+			if *only != "" && !strings.Contains(canonName(m), *only) {
+				continue
+			}
+			r := verifyFunction(P, SS, G, m, con, "@as:"+parts[1])
+			results = append(results, r)
+			obls = append(obls, r.Obls...)
+		}
 	}
 	genTime := time.Since(start)
 	solveAll(obls, *out, timeout, seed, *jobs)
